@@ -10,6 +10,7 @@ from rsast import parse_fn
 from ctx2lean import Tr, Env, lname, paren, is_self
 
 MACHINE = r'impl<Stream:\s*Read\s*\+\s*Write>\s+HandshakeMachine<Stream>\s*\{'
+MID = r'impl<Role:\s*HandshakeRole>\s+MidHandshake<Role>\s*\{'
 SITES = {('single_round', 'assert', 0): 'writingEmpty'}
 
 
@@ -28,7 +29,8 @@ class HsTr(Tr):
     SELF_SETTERS = {}
     RES = 'HR'
     PANIC = 'HPanic'
-    ALL_CTORS = dict(Tr.ALL_CTORS, HandshakeState={'Reading', 'Writing', 'Flushing'})
+    ALL_CTORS = dict(Tr.ALL_CTORS, HandshakeState={'Reading', 'Writing', 'Flushing'},
+                     RoundResult={'WouldBlock', 'Incomplete', 'StageFinished'}, ProcessingResult={'Continue', 'Done'})
 
     def local(self, e, env, mutable=False):
         ok = e[0] == 'path' and len(e[1]) == 1 and e[1][0] in env.vars
@@ -37,6 +39,10 @@ class HsTr(Tr):
     def enum_ctor(self, segs, env):
         if len(segs) >= 2 and segs[-2] == 'HandshakeState':
             return 'HState.' + lean_variant(segs[-1])
+        if len(segs) >= 2 and segs[-2] == 'RoundResult' and segs[-1] in ('WouldBlock', 'Incomplete', 'StageFinished'):
+            return 'GRound.' + lean_variant(segs[-1])
+        if len(segs) >= 2 and segs[-2] == 'ProcessingResult' and segs[-1] in ('Continue', 'Done'):
+            return 'GProc.' + {'Continue': 'continue_', 'Done': 'done'}[segs[-1]]
         if len(segs) >= 2 and segs[-2] in ('IoErrorKind', 'ErrorKind') and segs[-1] == 'ConnectionReset':
             return 'IoKind.reset'
         return None
@@ -61,10 +67,35 @@ class HsTr(Tr):
             return True
         return None
 
+    def ret(self, e, env, ind):
+        # `handshake` returns Result<Final, HandshakeError>: `Interrupted` is a value here, failures travel in the monad
+        if env.fn == 'handshake' and e is not None and e[0] == 'call' and e[1] in (('path', ['Ok']), ('path', ['Err'])):
+            a = e[2][0]
+            if e[1] == ('path', ['Ok']):
+                return [f'{ind}return (GHs.done {paren(self.v(a, env))})']
+            if a[0] == 'call' and a[1] == ('path', ['HandshakeError', 'Interrupted']) and len(a[2]) == 1:
+                m = a[2][0]
+                if m[0] == 'struct' and m[1][-1] == 'MidHandshake' and len(m) == 4 and is_self(m[3]) \
+                        and [f for f, _ in m[2]] == ['machine']:
+                    return [f'{ind}return (GHs.interrupted role {paren(self.v(m[2][0][1], env))})']
+            self.fail(env, 'this form of Err(..) in handshake')
+        return Tr.ret(self, e, env, ind)
+
     def leaf_expr(self, e, env):
         k = e[0]
         if k == 'field' and is_self(e[1]) and e[2] == 'state':
             return 'V', 'state'
+        if k == 'field' and is_self(e[1]) and e[2] == 'machine' and env.fn == 'handshake':
+            return 'V', 'machine'
+        if k == 'try' and e[1][0] == 'mcall' and e[1][2] == 'single_round' and not e[1][3] and self.local(e[1][1], env):
+            return 'V', f'(← singleRound parse {lname(e[1][1][1][0])})'
+        if k == 'try' and e[1][0] == 'mcall' and e[1][2] == 'stage_finished' and len(e[1][3]) == 1 \
+                and e[1][1] == ('field', ('path', ['self']), 'role'):
+            env.fresh += 1
+            ro, r = f'__ro{env.fresh}', f'__r{env.fresh}'
+            env.pre.append(f'let ({ro}, {r}) := stage role {paren(self.v(e[1][3][0], env))}')
+            env.pre.append(f'role := {ro}')
+            return 'V', f'(← liftRes {r})'
         if k == 'try':
             x = e[1]
             if x[0] == 'mcall' and x[2] == 'no_block' and not x[3] and x[1][0] == 'mcall':
@@ -105,9 +136,9 @@ class HsTr(Tr):
                     f = dict(a[2])
                     if sorted(f) != ['result', 'stream', 'tail'] or not is_stream(f['stream']):
                         self.fail(env, 'DoneReading fields changed')
-                    return 'V', f'GRound.doneReading {paren(self.v(f["result"], env))} {paren(self.v(f["tail"], env))}'
+                    return 'V', f'GRound.stageFinished (GStage.doneReading {paren(self.v(f["result"], env))} {paren(self.v(f["tail"], env))})'
                 if a[0] == 'call' and a[1] == ('path', ['StageResult', 'DoneWriting']) and len(a[2]) == 1 and is_stream(a[2][0]):
-                    return 'V', 'GRound.doneWriting'
+                    return 'V', 'GRound.stageFinished GStage.doneWriting'
                 self.fail(env, 'StageFinished with an unknown stage result')
         return None
 
@@ -127,7 +158,7 @@ class HsTr(Tr):
         return None
 
 
-def translate(src):
+def translate(src, path):
     fn = parse_fn(src, 'single_round', MACHINE, what='HandshakeMachine::single_round')
     if fn['self'] != 'self' or fn['params']:
         raise TranslateError('HandshakeMachine::single_round: signature changed')
@@ -147,13 +178,42 @@ def translate(src):
            '/-- `HandshakeMachine::single_round` (the stream is the monad\'s state, `parse` is `Obj::try_parse`) -/',
            'def singleRound (parse : Bytes → HeadParse) (state : HState) : M GRound := do']
     out += tr.seq(fn['body'], env, 'ret', '  ')
-    out += ['', 'end WsModel.GenHs']
+    out.append('')
+    # ---- MidHandshake::handshake: the loop around single_round (fuel-bounded; the role's
+    # `stage_finished` is a parameter: new role state and `Continue(machine)` / `Done(result)`)
+    src2 = open(os.path.join(os.path.dirname(path), 'mod.rs')).read()
+    hf = parse_fn(src2, 'handshake', MID, what='MidHandshake::handshake')
+    if hf['self'] != 'self' or hf['params'] or not re.fullmatch(r'Result<Role::FinalResult,\s*HandshakeError<Role>>', hf['ret']):
+        raise TranslateError('MidHandshake::handshake: signature changed')
+    body = hf['body']
+    if len(body[1]) != 1 or body[1][0][0] != 'let' or body[1][0][1] != ('bind', 'mach', False, True) \
+            or body[1][0][3] != ('field', ('path', ['self']), 'machine') or body[2] is None or body[2][0] != 'loop':
+        raise TranslateError('MidHandshake::handshake: no longer `let mut mach = self.machine; loop { .. }`')
+    tr.specs['handshake'] = {'lean': 'handshake', 'ret_result': True, 'ret_lean': 'GHs ρ φ'}
+    env = Env('handshake', True, SITES)
+    env.panic_prefix = 'HPanic'
+    for v, mut in (('parse', False), ('stage', False), ('role', True), ('mach', True), ('machine', False)):
+        env.vars[v] = {'kind': 'V', 'mut': mut, 'alias': None}
+    loop_items = tr.seq(body[2][1], env, 'unit', '    ')
+    binders = '{ρ φ : Type} (parse : Bytes → HeadParse) (stage : ρ → GStage → ρ × HR (GProc φ))'
+    out += ['/-- the `loop` of `MidHandshake::handshake` (fuel-bounded) -/',
+            f'def handshakeLoop {binders} : Nat → ρ → HState → M (GHs ρ φ)',
+            '  | 0, _, _ => panicAt HPanic.fuel',
+            '  | fuel + 1, role, mach => do',
+            '    let mut role := role',
+            '    let mut mach := mach']
+    out += loop_items
+    out += ['    handshakeLoop parse stage fuel role mach', '',
+            '/-- `MidHandshake::handshake` -/',
+            f'def handshake {binders} (fuel : Nat) (role : ρ) (machine : HState) : M (GHs ρ φ) :=',
+            '  handshakeLoop parse stage fuel role machine', '']
+    out += ['end WsModel.GenHs']
     return '\n'.join(out) + '\n'
 
 
 def gen_hs(repo):
-    src = open(os.path.join(repo, 'src/handshake/machine.rs')).read()
-    return translate(src)
+    path = os.path.join(repo, 'src/handshake/machine.rs')
+    return translate(open(path).read(), path)
 
 
 if __name__ == '__main__':
